@@ -67,7 +67,7 @@ def meta(tier):
                 'containing a symbol name) x definition source of each defined symbol in {ISA, -D, #define} x use-line token pairs '
                 '(written once before and once after the #define block, as `.byte t1, t2`, through `T = t1` and as the operand of `ldi b, t2`); plus every '
                 'double definition across and within sources; replacement texts with backslash escapes (5 strings x 3 sources x chains of 0..2 intermediate '
-                'symbols) used in .cstr / .byte; 2..33 occurrences of one symbol on a line / in a replacement text; symbols without a value (3 sources x chains) in 7 lines that stay well-formed when the name disappears; non-trivial = table with a chain/diamond/cycle or a use line that '
+                'symbols) used in .cstr / .byte; 2..33 occurrences of one symbol on a line / in a replacement text; symbols without a value (3 sources x chains) in 7 lines that stay well-formed when the name disappears; symbol names that also read as numbers (b1, DEH, b101, ACH, each) x 3 sources x chains of 0..2 x alone / next to another symbol, and self-definitions of such names; non-trivial = table with a chain/diamond/cycle or a use line that '
                 'mixes a symbol with an identifier containing its name; states = distinct (table, sources) pairs',
         'bounds': {'symbols': SYMS, 'values': {k: [None if v is None else ' '.join(v) for v in vs] for k, vs in VALUES.items()},
                    'containing_identifiers': CONSTS, 'use_tokens': [' '.join(t) for t in USE_TOKENS],
@@ -183,7 +183,8 @@ def shard(acc, tier, idx, n):
             acc.judge(clause='double-definition-rejected', nontrivial_key=('dd', s1, s2, v1, v2))
     ctr = string_replacements(acc, idx, n, ctr)
     ctr = empty_replacements(acc, idx, n, ctr)
-    many_occurrences(acc, idx, n, ctr)
+    ctr = many_occurrences(acc, idx, n, ctr)
+    number_like_names(acc, idx, n, ctr)
 
 
 # replacement texts that carry backslashes (string escapes): copied verbatim, whatever the source and through chains
@@ -273,6 +274,66 @@ def many_occurrences(acc, idx, n, ctr0):
         if msg:
             acc.violation([case], spec, f'{count} occurrences of one symbol in one {where} ({src}): {msg}', [out])
         acc.judge(clause='substituted', nontrivial_key=('many', src, count, where))
+    return ctr
+
+
+def number_like_names(acc, idx, n, ctr0):
+    """A defined symbol is replaced even when its name could also be read as a number (b1: binary 1, DEH: hexadecimal DE): used
+    directly, through one or two intermediate symbols, alone on the line or next to another symbol; a self-reference is rejected."""
+    ctr = ctr0
+    for name, src, chain, company in itertools.product(('b1', 'DEH', 'b101', 'ACH', 'each'), SOURCES, (0, 1, 2), (False, True)):
+        ctr += 1
+        if ctr % n != idx:
+            continue
+        names = [name, 'MIDN', 'OUTN'][:chain + 1]
+        table = {name: '0x42'}
+        for a, b in zip(names[1:], names):
+            table[a] = b
+        if company:
+            table['OTHER'] = '(3)'
+        isa_syms = [{'name': k, 'value': v} for k, v in table.items()] if src == 'isa' else []
+        cli = [f'{k}={v}' for k, v in table.items()] if src == 'cli' else []
+        lines = [f'#define {k} {v}' for k, v in table.items()] if src == 'define' else []
+        lines += [f'    .byte {names[-1]}' + (', OTHER' if company else ''), f'    ldi a, {names[-1]}', '    .byte $EE']
+        case = Case(probe_isa(16, 'little', symbols=isa_syms or None), '\n'.join(lines) + '\n', defines=cli)
+        out = acc.run(case)
+        acc.transition()
+        spec = {'expect': 'OK', 'image_hex': bytes([0x42] + ([3] if company else []) + [0xA0, 0x42, 0xEE]).hex(), 'symbol': name, 'source': src, 'chain': chain}
+        msg = judge_expect(spec, [out])
+        if msg:
+            acc.violation([case], spec, f'symbol {name} (reads like a number) from {src} through {chain} intermediate symbols: {msg}', [out])
+        acc.judge(clause='substituted', nontrivial_key=('numlike', name, src, chain, company))
+    # a replacement value written as a number in the definition file (YAML / JSON integer, not a string) is that number's text
+    for value, yaml, chain in itertools.product((34, 0, 7, -3, 255), (False, True), (0, 1)):
+        ctr += 1
+        if ctr % n != idx:
+            continue
+        syms = [{'name': 'NV', 'value': value}] + ([{'name': 'NW', 'value': 'NV'}] if chain else [])
+        use = 'NW' if chain else 'NV'
+        case = Case(probe_isa(16, 'little', symbols=syms), f'    .byte 1 + {use}\n    ldi a, {use}\n    .byte $EE\n', isa_yaml=yaml)
+        out = acc.run(case)
+        acc.transition()
+        spec = {'expect': 'OK', 'image_hex': bytes([(1 + value) & 0xFF, 0xA0, value & 0xFF, 0xEE]).hex(), 'symbol_value': value, 'chain': chain}
+        msg = judge_expect(spec, [out])
+        if msg:
+            acc.violation([case], spec, f'ISA symbol with the integer value {value} ({"YAML" if yaml else "JSON"}, chain {chain}): {msg}', [out],
+                          finding='F36' if 'TypeError' in (out.detail or '') else None)
+        acc.judge(clause='substituted', nontrivial_key=('intvalue', value, yaml, chain))
+    for name, src in itertools.product(('b1', 'FACEH', 'LOOP'), SOURCES):
+        ctr += 1
+        if ctr % n != idx:
+            continue
+        isa_syms = [{'name': name, 'value': name}] if src == 'isa' else []
+        cli = [f'{name}={name}'] if src == 'cli' else []
+        lines = ([f'#define {name} {name}'] if src == 'define' else []) + [f'    .byte {name}', '    .byte $EE']
+        case = Case(probe_isa(16, 'little', symbols=isa_syms or None), '\n'.join(lines) + '\n', defines=cli)
+        out = acc.run(case)
+        acc.transition()
+        spec = {'expect': 'REJECT', 'why': f'{name} is defined as itself', 'source': src}
+        msg = judge_expect(spec, [out])
+        if msg:
+            acc.violation([case], spec, f'symbol {name} defined as itself ({src}): {msg}', [out])
+        acc.judge(clause='cycle-rejected', nontrivial_key=('selfref', name, src))
     return ctr
 
 
